@@ -70,7 +70,7 @@ def shard(desc):
                     weights = [rng.choice([0.0, 1.0, 10.0 ** rng.uniform(-6, 6)]) for _ in ys]
                 c, marks = sc.prefix_case('%s-%d' % (desc['name'], cid), typ, ys, meta=m,
                                           dense_limit=desc.get('dense_limit', 64), weights=weights,
-                                          final_only=desc.get('final_only', False))
+                                          final_only=desc.get('final_only', False), via_trait=rng.random() < 0.2)
                 cid += 1
                 cases.append(c)
                 plan.append((c, marks, oracle, typ, only))
